@@ -44,6 +44,12 @@ def plan(tier, seed):
                           "alg": alg, "n": n, "delta": delta, "lr": lr,
                           "sketch": sk, "depth": depth,
                           "profile": {"x64": True}, "part": "sketched"})
+  for alg, sk in [("OGD", 0), ("ADA", 0), ("S_ADA", 3), ("S_ADA", 2)]:
+    for n in [3, 4]:
+      tasks.append({"name": "train/%s/n%d/l%d" % (alg, n, sk), "kind": "train",
+                    "alg": alg, "n": n, "delta": 0.5, "lr": 0.25,
+                    "sketch": sk, "depth": 3 if tier == "quick" else 4,
+                    "profile": {"x64": True}, "part": "train_loop"})
   tasks.append({"name": "S_ADA/2x2/l2", "alg": "S_ADA", "n": 4, "delta": 0.5,
                 "lr": 1.0, "sketch": 2, "depth": depth, "wshape": [2, 2],
                 "profile": {"x64": True}, "part": "sketched"})
@@ -58,15 +64,103 @@ def plan(tier, seed):
   }
 
 
+def run_train(task, acc):
+  """The dataset driver of oco/train.py: all row sequences of length T, all
+  ways of cutting them into observation chunks; recorded iterates against the
+  closed forms of the prefixes (linear loss <w,x>, so gradient t = row t)."""
+  import itertools
+  import jax
+  import jax.numpy as jnp
+  from precondition.oco import algorithms as A
+  from precondition.oco import train
+  n, delta, lr, sk = task["n"], task["delta"], task["lr"], task["sketch"]
+  T = task["depth"]
+  alg = getattr(A.Algorithm, task["alg"])
+  hp = A.HParams(delta=delta, lr=lr, sketch_size=sk, algorithm=alg)
+  init, update = A.generate_init_update((n,), hp)
+  ev = events(n)
+  names = ["a", "b", "c", "z"] + (["d"] if n >= 3 and sk != 2 else [])
+  loss = lambda w, x, y: jnp.dot(w, x)
+  lag = jax.value_and_grad(loss)
+  cuts = [c for r in range(0, T) for c in itertools.combinations(
+      range(1, T), r)]
+  for seq in itertools.product(names, repeat=T):
+    x = np.stack([ev[e] for e in seq])
+    # reference iterates after each step
+    w = np.zeros(n)
+    h = np.full(n, float(delta))
+    C = np.zeros((n, n))
+    ref = [w.copy()]
+    for t, e in enumerate(seq, 1):
+      g = ev[e]
+      if task["alg"] == "OGD":
+        w = w - lr * g / np.sqrt(t + delta)
+      elif task["alg"] == "ADA":
+        h = h + g * g
+        w = w - lr * g / np.sqrt(np.where(h == 0, 1.0, h))
+      else:
+        C = C + np.outer(g, g)
+        lam, v = np.linalg.eigh(delta * np.eye(n) + C)
+        w = w - lr * (v * lam ** -0.5) @ v.T @ g
+      ref.append(w.copy())
+    rank = np.linalg.matrix_rank(x)
+    if task["alg"] == "S_ADA" and not rank < sk:
+      acc.outcome("lossy_sequence_skipped")
+      continue
+    for cut in cuts:
+      obs = np.asarray([0] + list(cut) + [T])
+      st = dict(init())
+      st["loss"] = jnp.array(0.0, jnp.float64)
+      st["n"] = 0
+      hist = train._compiled_run_dataset(
+          jnp.asarray(x), jnp.zeros(T), st, jnp.asarray(obs), lag, update,
+          None)
+      acc.states += 1
+      acc.transitions += 1
+      if len(cut):
+        acc.nontrivial += 1
+      ws = np.asarray(hist["w"], np.float64)
+      ns = np.asarray(hist["n"])
+      for i, o in enumerate(obs):
+        want = ref[o]
+        if int(ns[i]) != o or np.max(np.abs(ws[i] - want)) > 1e-9 * max(
+            1.0, np.max(np.abs(want))):
+          acc.outcome("viol_train_loop")
+          acc.violation(
+              "C16|%s|%s|%s" % (task["name"], ",".join(seq), list(obs)),
+              "iterate recorded after %d rows (observation points %s) is %s, "
+              "closed form %s" % (o, obs.tolist(), ws[i].tolist(),
+                                  want.tolist()),
+              {"config": {k: task[k] for k in ("alg", "n", "delta", "lr",
+                                               "sketch")},
+               "rows": list(seq), "obs_ixs": obs.tolist()})
+          break
+      else:
+        acc.outcome("train_loop_ok")
+    acc.sample({"rows": list(seq), "chunkings": len(cuts)})
+
+
 def run_task(task):
   import jax
   import jax.numpy as jnp
   from precondition.oco import algorithms as A
   acc = Acc(task["name"])
+  if task.get("kind") == "train":
+    run_train(task, acc)
+    return acc.result()
   n, delta, lr, sk = task["n"], task["delta"], task["lr"], task["sketch"]
   alg = getattr(A.Algorithm, task["alg"])
   hp = A.HParams(delta=delta, lr=lr, sketch_size=sk, algorithm=alg)
   wshape = tuple(task.get("wshape", [n]))
+  # process history: the same algorithm bound earlier in this process with
+  # other hyper-parameters must not leak into this binding
+  try:
+    oi, ou = A.generate_init_update(
+        wshape, A.HParams(delta=delta + 0.25, lr=lr * 2, sketch_size=sk,
+                          algorithm=alg))
+    ou(dict(oi()), jnp.zeros(()), jnp.ones(wshape))
+  except Exception:  # pylint: disable=broad-except
+    pass
   init, update = A.generate_init_update(wshape, hp)
   ev = events(n)
   names = list(ev) if n >= 3 else ["a", "b", "c", "z"]
